@@ -69,7 +69,7 @@ ALNUM = LETTERS + '0123456789'
 
 def mnemonics(rnd, n, lo=2, hi=4, taken=()):
     """n distinct LAS-safe mnemonics: a letter followed by letters / digits; none that reads as a number or YES/NO."""
-    out, seen = [], set(taken) | {'YES', 'NO', 'X'}
+    out, seen = [], set(taken) | {'YES', 'NO', 'X', 'DATE', 'TIME', 'INF', 'NAN', 'NOSUCH'}
     while len(out) < n:
         m = rnd.choice(LETTERS) + ''.join(rnd.choice(ALNUM) for _ in range(rnd.randint(lo, hi) - 1))
         if m in seen or m[0] == 'E' and m[1:].isdigit() or m in ('INF', 'NAN'):
@@ -163,8 +163,8 @@ def _dlis_x_values(rnd, code, n):
     step = rnd.choice([0.125, 0.25, 0.5, 0.5, 1.0, 2.5, 6.0])
     if code == dl.VSINGL:
         # powers of two only (see dlis_value): 2**k, k rising or falling
-        k0 = rnd.randint(-4, 4)
         down = rnd.random() < 0.5
+        k0 = (n - 1 + rnd.randint(-3, 3)) if down else rnd.randint(-3, 4)        # smallest value 2**-3: three decimals resolve it
         return [Fraction(2) ** (k0 + (-i if down else i)) for i in range(n)]
     down = rnd.random() < 0.5
     x0 = rnd.randint(800, 80000) / 8.0
@@ -243,9 +243,11 @@ def dlis_parameter_set(rnd):
     return dl.SetModel(5, b'PARAMETER', None, template, objs)
 
 
-def dlis_source(rnd, max_frames=14, max_logical_files=2):
+def dlis_source(rnd, max_frames=14, max_logical_files=2, name_pool=None):
     """An RP66V1 file of 1..max_logical_files logical files, each with 0..2 frame types of 1..5 channels.
-    Returns Source; Source.passes lists one PassModel per (logical file, frame type) in file order."""
+    Returns Source; Source.passes lists one PassModel per (logical file, frame type) in file order.
+    name_pool: None, or a list of mnemonics to draw the channel names from (distinct within the file, but files made
+    from the same pool share names: the index channel of one file can be an ordinary channel of another)."""
     opt = dl.Options(absent=False)
     records, passes = [], []
     taken = set()
@@ -263,6 +265,8 @@ def dlis_source(rnd, max_frames=14, max_logical_files=2):
         for k in range(n_types):
             n_ch = rnd.randint(1, 5)
             names = mnemonics(rnd, n_ch + 1, 2, 6, taken)
+            if name_pool is not None and len([x for x in name_pool if x not in taken]) >= n_ch:
+                names[:n_ch] = rnd.sample([x for x in name_pool if x not in taken], n_ch)
             taken.update(names)
             n = rnd.randint(1, max_frames)
             chans, models = [], []
